@@ -6,7 +6,8 @@
    nothing is assumed about H. *)
 From DV Require Import Base.Prelude.
 From DV Require Model.NameM.
-From DV Require Import Model.TsigM Proofs.TsigSpec Proofs.TsigLemmas Proofs.TsigInj Proofs.TsigReader Proofs.TsigStream Proofs.TsigSender Proofs.TsigTamper.
+From DV Require Import Model.TsigM Proofs.TsigSpec Proofs.TsigLemmas Proofs.TsigInj Proofs.TsigReader Proofs.TsigStream Proofs.TsigSender Proofs.TsigTamper Proofs.TsigCodec Proofs.TsigWire.
+From DV Require Import Proofs.NameValid.
 Open Scope Z_scope.
 
 (* ---- the octets fed to the MAC are the RFC 8945 input ---- *)
@@ -70,6 +71,32 @@ Theorem sign_then_validate :
     validate H wire' k (kname k) rd' now rmac start ctx multi = Ok c'.
 Proof. exact sign_then_validate_lemma. Qed.
 Print Assumptions sign_then_validate.
+
+(* the TSIG rdata codec: decoding what _to_wire wrote, anywhere inside a message, gives the
+   record back and consumes exactly its octets *)
+Theorem tsig_rdata_wire_roundtrip :
+  forall t rdw (pre post : bytes),
+    tsig_ok t -> tsig_to_wire t = Ok rdw ->
+    tsig_from_wire (pre ++ rdw ++ post) (length pre + length rdw) (length pre) = Ok t.
+Proof. exact tsig_codec_roundtrip. Qed.
+Print Assumptions tsig_rdata_wire_roundtrip.
+
+(* wire level: when the reader arrives at the TSIG RR that Message.to_wire / Renderer.add_tsig
+   appended, it reads back the same owner and rdata and validate accepts, for every H; the
+   resulting context is the one the signer handed on *)
+Theorem signed_rr_reads_back_validated :
+  forall H wire k rd now rmac ctx multi out rd' c' now2 count st,
+    sign_message H wire k (kname k) rd now rmac ctx multi = Ok (out, rd', c') ->
+    Valid (kname k) -> Valid (t_alg rd) ->
+    all_bytes wire = true -> (12 <= length wire)%nat ->
+    t_error rd = 0 -> NameM.name_eqb (kalg k) (t_alg rd) = true ->
+    rfc_time_ok now2 now (t_fudge rd) ->
+    r_pos st = length wire -> r_ctx st = ctx ->
+    get_rr H out (KR_Key k) rmac now2 multi 3 count (count - 1) st
+    = Ok {| r_pos := length out; r_tsig := Some (kname k, rd'); r_ctx := c';
+            r_recs := (3, TSIG, ANY, length wire) :: r_recs st |}.
+Proof. exact signed_rr_reads_back_validated_lemma. Qed.
+Print Assumptions signed_rr_reads_back_validated.
 
 (* ---- what validate accepts ---- *)
 Theorem validate_accepts_iff :
